@@ -24,11 +24,12 @@ type Cfg struct {
 	DirOn                       bool
 	DirTTL                      time.Duration
 	DirCap, DirMaxSize, MaxHand int
+	Async                       bool   // ExportOptions.Async (documented "allow async writes"); not part of Srv.cfg
 	Squash                      string // "" = none; not part of Srv.cfg: the Coq side is given the EFFECTIVE credentials
 }
 
 func (c Cfg) Opts() absnfs.ExportOptions {
-	return absnfs.ExportOptions{ReadOnly: c.RO, MaxFileSize: c.MaxFile, TransferSize: c.Tsize,
+	return absnfs.ExportOptions{ReadOnly: c.RO, Async: c.Async, MaxFileSize: c.MaxFile, TransferSize: c.Tsize,
 		AttrCacheTimeout: c.AttrTTL, AttrCacheSize: c.AttrCap, CacheNegativeLookups: c.NegOn, NegativeCacheTimeout: c.NegTTL,
 		EnableDirCache: c.DirOn, DirCacheTimeout: c.DirTTL, DirCacheMaxEntries: c.DirCap, DirCacheMaxDirSize: c.DirMaxSize,
 		Squash: map[bool]string{true: "none", false: c.Squash}[c.Squash == ""]}
